@@ -14,7 +14,15 @@
      the result.  With one thread (sequential recursor, deterministic allocation
      sequence) also the number of nodes stored after a FAILED run - the garbage it leaves
      behind - is predicted; with several threads the store must be full after a failure.
-     [bdd_ok_b] (the hypothesis of the theorems) must hold on every such snapshot. *)
+     [bdd_ok_b] (the hypothesis of the theorems) must hold on every such snapshot.
+   - C14x (ownership): with one thread, for every NOT / binary operator / ITE that the
+     bounded model predicts to FAIL, the extracted ownership model of coq/Mgr/OomOwn.v
+     (tokens, guards, reference counts; guard placement of the code) is run on the same
+     snapshot ([own_inv_b] = the hypothesis CInv of the C14_own_* theorems must hold on it):
+     it must fail too, own exactly the harness's handles afterwards (BALANCE), and the
+     table it predicts - every stored node (the garbage of the failed run included) with
+     its level, its children up to renaming and its REFERENCE COUNT - must be the table
+     the real manager shows after the failed operation. *)
 open Conv
 
 (* ---- trace parsing (self-contained copies of the few helpers of ocaml/dd_types.ml that this
@@ -103,7 +111,36 @@ let bop_of = function
   | "EQUIV" -> Some Model.OEquiv | "NAND" -> Some Model.ONand | "NOR" -> Some Model.ONor
   | "IMP" -> Some Model.OImp | "IMPS" -> Some Model.OImpStrict | _ -> None
 
-type pred = { pcode : int; pcount : int; pfull : int; ptable : vt option; pwhat : string; pdst : int; pstep : int }
+(* C14x: the stored nodes up to renaming, each with its reference count.  A node's identity is
+   (level, identities of its children), a terminal's its id; [tbl] interns the triples and is
+   shared by the two snapshots that are compared. *)
+let profile (tbl : (int * int list, int) Hashtbl.t) (s : Model.snap) : (int * string) list =
+  let memo : (string, int) Hashtbl.t = Hashtbl.create 64 in
+  let rec key (e : Model.edge) : int =
+    match e.Model.eref with
+    | Model.RT t -> - (1 + int_of_n t)
+    | Model.RN id ->
+      let ids = Z.to_string (z_of_pos id) in
+      (match Hashtbl.find_opt memo ids with
+       | Some k -> k
+       | None ->
+         let k =
+           match Model.find_node s id with
+           | None -> failwith "profile: dangling child"
+           | Some nd ->
+             let trip = (int_of_nat nd.Model.nlevel, List.map key nd.Model.nchildren) in
+             (match Hashtbl.find_opt tbl trip with
+              | Some k -> k
+              | None -> let k = Hashtbl.length tbl in Hashtbl.add tbl trip k; k) in
+         Hashtbl.add memo ids k; k) in
+  List.sort compare
+    (List.map (fun (id, nd) -> (key { Model.eref = Model.RN id; Model.etag = false }, string_of_n nd.Model.nrc))
+       (Model.PositiveMap.elements s.Model.s_nodes))
+
+let show_profile l = String.concat " " (List.map (fun (k, rc) -> Printf.sprintf "%d:%s" k rc) l)
+
+type pred = { pcode : int; pcount : int; pfull : int; ptable : vt option; pwhat : string; pdst : int; pstep : int;
+              pown : (Model.snap * int) option }
 
 let () =
   iter_cases stdin (fun c ->
@@ -157,7 +194,21 @@ let () =
                            fail p.pstep "prop"
                              (Printf.sprintf "%s at capacity %d: result table %s, the bounded model says %s" p.pwhat cap (show_vt got) (show_vt exp))
                          | None -> fail p.pstep "prop" (Printf.sprintf "%s: result handle dangling" p.pwhat))
-                      | _ -> stat "unresolved" 1)
+                      | _ -> stat "unresolved" 1);
+                    (match p.pown with
+                     | Some (own_snap, own_toks) when not !failed ->
+                       stat "own_predictions" 1;
+                       let tbl = Hashtbl.create 64 in
+                       let exp = profile tbl own_snap and got = profile tbl ps.snap in
+                       if own_toks <> int_of_nat (Model.snap_tokens ps.snap) then
+                         fail p.pstep "prop"
+                           (Printf.sprintf "%s at capacity %d failed: the ownership model owns %d edges afterwards, the harness holds %d handles"
+                              p.pwhat cap own_toks (int_of_nat (Model.snap_tokens ps.snap)))
+                       else if exp <> got then
+                         fail p.pstep "prop"
+                           (Printf.sprintf "%s at capacity %d failed with out-of-memory: stored nodes with reference counts afterwards (node:count) %s, the ownership model (every acquired edge released) says %s"
+                              p.pwhat cap (show_profile got) (show_profile exp))
+                     | _ -> ())
                   | None -> ());
                  if predictable then (
                    stat "chk_bdd_ok" 1;
@@ -223,8 +274,40 @@ let () =
                             match rref with
                             | Some rr -> value_table { ps with snap = s' } { Model.eref = rr; Model.etag = false }
                             | None -> None in
+                          let own =
+                            if code <> 1 || threads > 1 then None
+                            else
+                              let o =
+                                match toks with
+                                | [ ("NOT" | "NOTO"); _; a ] ->
+                                  (match href a with Some f -> Some (Model.own_not ncap ps.snap f) | None -> None)
+                                | [ op; _; a; b ] when bop_of op <> None ->
+                                  (match href a, href b, bop_of op with
+                                   | Some f, Some g, Some o -> Some (Model.own_bin ncap ps.snap o f g)
+                                   | _ -> None)
+                                | [ "ITE"; _; a; b; cc ] ->
+                                  (match href a, href b, href cc with
+                                   | Some f, Some g, Some h -> Some (Model.own_ite ncap ps.snap f g h)
+                                   | _ -> None)
+                                | _ -> None in
+                              match o with
+                              | None -> None
+                              | Some o ->
+                                stat "chk_own_inv" 1;
+                                if not (Model.own_inv_b ps.snap) then (
+                                  fail i "prop" "own_inv_b false on the snapshot before the operation (reference counts not exact: hypothesis CInv of the C14_own theorems)";
+                                  None)
+                                else if int_of_nat (Model.ores_code o) <> 1 then (
+                                  fail i "corr"
+                                    (Printf.sprintf "%s at capacity %d: the bounded model runs out of memory, the ownership model has outcome %d"
+                                       ops cap (int_of_nat (Model.ores_code o)));
+                                  None)
+                                else
+                                  match Model.own_snap ps.snap o, Model.own_tokens o with
+                                  | Some s2, Some t2 -> Some (s2, int_of_nat t2)
+                                  | _ -> None in
                           pending := Some { pcode = code; pcount = cnt; pfull = max cap ps.listed; ptable = tab; pwhat = ops;
-                                            pdst = dst; pstep = i })))
+                                            pdst = dst; pstep = i; pown = own })))
         c.lines;
       stat "cases" 1;
       stat "steps" (List.length c.lines);
